@@ -223,6 +223,86 @@ fn ops(rng: &mut StdRng, with: &[&str]) -> Value {
     json!({"seeds": seeds, "steps": steps, "tag": "ops"})
 }
 
+pub fn val_table_json() -> Value {
+    Value::Array(
+        real_table("val")
+            .iter()
+            .map(|o| {
+                let bsem = match o.name { ">" => "gt", "<" => "lt", ">=" => "ge", "<=" => "le", "==" => "eq", "!=" => "ne", "if" => "if", "else" => "else", n => sem_of(n, true) };
+                json!({"name": cps(o.name), "bin": o.bin, "un": o.un, "const": o.constant, "prio": o.prio, "comm": o.comm,
+                       "sem": if o.bin { bsem } else { "" }, "usem": if o.un { sem_of(o.name, false) } else { "" }})
+            })
+            .collect(),
+    )
+}
+
+/// `f if cond else g`, nested, with arithmetic around; f, g typed by base point, cond a comparison of polynomials that is
+/// not on its boundary at the point
+fn valdiff(rng: &mut StdRng) -> Value {
+    let nv = rng.random_range(1..=2);
+    let pts = [Rat::int(0), Rat::int(1), Rat::int(-1), Rat { n: 1, d: 2 }, Rat::int(2), Rat::int(3), Rat { n: 5, d: 4 }, Rat { n: -3, d: 2 }];
+    let names = ["x", "y"];
+    let vars: Vec<(String, Rat)> = (0..nv).map(|i| (names[i].to_string(), *pts.choose(rng).unwrap())).collect();
+    let float_only = rng.random_bool(0.7);
+    fn piece(rng: &mut StdRng, vars: &[(String, Rat)], depth: u32, fns: bool) -> String {
+        // elementary functions only in float-only programs: the value type refuses them on integers
+        let p_fn = if fns { *[0.0, 0.3, 0.5].choose(rng).unwrap() } else { 0.0 };
+        let d = rng.random_range(1..=2);
+        let (body, _) = TG { rng, vars: vars.to_vec(), p_fn }.gen(d);
+        if depth == 0 || rng.random_bool(0.3) {
+            return body;
+        }
+        // condition: polynomial cmp polynomial, strictly decided at the point
+        for _ in 0..10 {
+            let (l, lv) = TG { rng, vars: vars.to_vec(), p_fn: 0.0 }.gen(1);
+            let (r, rv) = TG { rng, vars: vars.to_vec(), p_fn: 0.0 }.gen(1);
+            if l.contains('/') || r.contains('/') || l.contains('^') || r.contains('^') {
+                continue;
+            }
+            if let (Some(a), Some(b)) = (lv, rv) {
+                if a != b {
+                    let cmp = *[">", "<", ">=", "<=", "==", "!="].choose(rng).unwrap();
+                    let other = piece(rng, vars, depth - 1, fns);
+                    let wrapped = format!("(({body}) if ({l}) {cmp} ({r}) else ({other}))");
+                    return match rng.random_range(0..4) {
+                        0 => format!("{wrapped} * ({})", vars[0].0),
+                        1 => format!("2.5 + {wrapped}"),
+                        _ => wrapped,
+                    };
+                }
+            }
+        }
+        body
+    }
+    let depth0 = rng.random_range(1..=3);
+    let mut text = piece(rng, &vars, depth0, float_only);
+    if float_only {
+        // every integer literal becomes a float literal
+        let mut out = String::new();
+        let cs: Vec<char> = text.chars().collect();
+        let mut i = 0;
+        while i < cs.len() {
+            if cs[i].is_ascii_digit() && (i == 0 || !(cs[i - 1].is_ascii_alphanumeric() || cs[i - 1] == '.')) {
+                let mut j = i;
+                while j < cs.len() && (cs[j].is_ascii_digit() || cs[j] == '.') {
+                    j += 1;
+                }
+                let lit: String = cs[i..j].iter().collect();
+                out.push_str(&lit);
+                if !lit.contains('.') {
+                    out.push_str(".0");
+                }
+                i = j;
+            } else {
+                out.push(cs[i]);
+                i += 1;
+            }
+        }
+        text = out;
+    }
+    json!({"text": cps(&text), "nvars": nv, "point": point_json(&vars), "float_only": float_only, "tag": "valdiff"})
+}
+
 /// tables whose alphabetic names collide when written without separators (binary `lo` + unary `g` = `log`, ...)
 fn advnames(rng: &mut StdRng) -> Value {
     use crate::dynops::{intern, OpDesc};
@@ -283,7 +363,7 @@ pub fn main(args: &[String]) -> i32 {
     let mut rng = StdRng::seed_from_u64(seed().wrapping_mul(0x9E3779B97F4A7C15).wrapping_add(1000 + stream));
     let stdout = std::io::stdout();
     let mut out = std::io::BufWriter::new(stdout.lock());
-    let _ = writeln!(out, "{}", json!({"table": float_table_json()}));
+    let _ = writeln!(out, "{}", json!({"table": if family == "valdiff" { val_table_json() } else { float_table_json() }}));
     for _ in 0..n {
         let rec = match family.as_str() {
             "typed" => typed(&mut rng),
@@ -292,6 +372,7 @@ pub fn main(args: &[String]) -> i32 {
             "subs" => ops(&mut rng, &["subs", "subs", "conv", "op"]),
             "print" => ops(&mut rng, &["print", "op", "std", "subs", "conv", "partial", "print"]),
             "advnames" => advnames(&mut rng),
+            "valdiff" => valdiff(&mut rng),
             _ => ops(&mut rng, &["op", "std", "conv", "subs", "print", "partial"]),
         };
         let _ = writeln!(out, "{rec}");
